@@ -226,6 +226,12 @@ class HRep:
             as_float = True
         self.int_downgraded = as_float
         for nm, M in self.lib_mats.items():
+            if self.dim >= 2 and len(nm) == 1 and (ord(nm) + self.dim) % 2:
+                # a generator that is assigned twice (a representation being deformed): the
+                # second assignment is the one that counts, for the inverse letter too
+                D_ = np.eye(self.dim)
+                D_[0, 1] = 3.0
+                rep[nm] = D_ if M.dtype.kind == "f" or as_float else D_.astype(M.dtype)
             rep[nm] = M.astype(float) if as_float else M.copy()
         return wrapped(rep, self.wrap)
 
